@@ -70,6 +70,21 @@ JOBS = [
     Job('UTMUPS.EncodeEPSG', 'UTMUPS::EncodeEPSG', ['C04', 'C14'], const_classes=['<MGRS'], description='zone, hemisphere -> EPSG code'),
     Job('UTMUPS.EPSG_roundtrip', None, ['C04'], lemma=True, replace=['UTMUPS::EncodeEPSG', 'UTMUPS::DecodeEPSG'], const_classes=['MGRS', 'UTMUPS'],
         description='lemma: EPSG encode/decode are mutually inverse (from the two contracts)'),
+    # ---- Math primitives (C16)
+    Job('Math.sum.float', 'Math::sum', ['C16', 'C14'], real='float', timeout=14000, tier='thorough', cname='Math_sum', contract_name='Math_sum',
+        cases=[('near', '!(verif_fabsf(in_u) >= verif_fabsf(in_v)*536870912.0f) && !(verif_fabsf(in_v) >= verif_fabsf(in_u)*536870912.0f)'),
+               ('u_dominates', 'verif_fabsf(in_u) >= verif_fabsf(in_v)*536870912.0f'), ('v_dominates', 'verif_fabsf(in_v) >= verif_fabsf(in_u)*536870912.0f')],
+        defines=['VERIF_SUM_MAX=1.7014117e38f', 'VERIF_SUM_EXACT(s,t,u,v)=((double)(s)+(double)(t)==(double)(u)+(double)(v)||(verif_fabsf(u)>=verif_fabsf(v)*536870912.0f&&(s)==(u)&&(t)==(v))||(verif_fabsf(v)>=verif_fabsf(u)*536870912.0f&&(s)==(v)&&(t)==(u)))'],
+        description='TwoSum, all finite floats (exactness checked in binary64)'),
+    Job('Math.AngNormalize', 'Math::AngNormalize', ['C16', 'C13', 'C14'], exclude_clauses=['post.equivalent'], description='angle normalisation (double)'),
+    Job('Math.AngNormalize.equiv', 'Math::AngNormalize', ['C16'], tier='thorough', timeout=7200, description='angle normalisation (double): equivalence modulo 360'),
+    Job('Math.AngNormalize.float', 'Math::AngNormalize', ['C16'], real='float', cname='Math_AngNormalize', contract_name='Math_AngNormalize',
+        defines=['VERIF_ANGNORM_EXACT=8388608.0f', 'VERIF_ANGNORM_WIDE=double'], description='angle normalisation (float)'),
+    Job('Math.AngRound', 'Math::AngRound', ['C16', 'C14'], defines=['VERIF_ANGROUND_GAP=6.938893903907228e-18', 'VERIF_ANGROUND_T=double'], description='small-angle rounding (double)'),
+    Job('Math.AngRound.float', 'Math::AngRound', ['C16'], real='float', cname='Math_AngRound', contract_name='Math_AngRound',
+        defines=['VERIF_ANGROUND_GAP=3.7252903e-09f', 'VERIF_ANGROUND_T=float'], description='small-angle rounding (float)'),
+    Job('Math.LatFix', 'Math::LatFix', ['C16', 'C14'], description='latitude fixing'),
+    Job('Math.atan2d', 'Math::atan2d', ['C16', 'C01', 'C14'], description='arctangent in degrees: range, quadrant, exact axes'),
 ]
 
 
@@ -90,10 +105,21 @@ NOT_APPLICABLE = {
     'C02': NUMERIC, 'C03': NUMERIC, 'C06': NUMERIC, 'C11': NUMERIC, 'C15': NUMERIC,
     'C17': NUMERIC + '; NearestNeighbor is a C++ template over user types that neither the C extraction nor the CBMC C++ front end can take',
     'C01': NOT_BUILT, 'C07': NOT_BUILT, 'C08': NOT_BUILT, 'C09': NOT_BUILT, 'C10': NOT_BUILT,
-    'C12': NOT_BUILT, 'C13': NOT_BUILT, 'C14': NOT_BUILT, 'C16': NOT_BUILT, 'C19': NOT_BUILT, 'C20': NOT_BUILT,
+    'C12': NOT_BUILT, 'C13': NOT_BUILT, 'C14': NOT_BUILT, 'C19': NOT_BUILT, 'C20': NOT_BUILT,
 }
 
 PROPS = {
+    'C16': dict(
+        level='proof',
+        level_text='Bit-exact IEEE facts about the short floating-point primitives, for all arguments: TwoSum is an error-free transformation (float), '
+                   'AngNormalize range / identity / sign / equivalence modulo 360, AngRound, LatFix, atan2d quadrants and exact axes, sincosd quadrant logic '
+                   'and exact special values: discharged by cbmc (loop-free code over full-domain symbolic floats).',
+        level_note='Trusted: exact models of remainder/remquo by 360/90 (conformance-tested against glibc), range-only models of sin/cos/atan2. '
+                   'Accuracy in ulps of sind/cosd/tand/atan2d, taupf/tauf, and the Accumulator precision claim are not decided.',
+        design_ref='DESIGN.md section 5, C16',
+        not_decided=['sincosd/atan2d accuracy in ulps (libm accuracy is not modelled)', 'taupf/tauf compose to identity (Newton on transcendental functions)',
+                     'Accumulator holds sums to twice working precision', 'Math::sum<double> exactness (needs binary128: thorough tier)'],
+    ),
     'C04': dict(
         level='proof',
         level_text='UTM/UPS: zone selection rules (UPS outside [80S,84N), 6-degree zones, Norway, Svalbard) as inequalities on the normalised '
